@@ -105,6 +105,9 @@ func (sf ScrubFields) clean(payload map[string]interface{}, path []string, field
 			if vv, ok := x.(map[string]interface{}); ok {
 				toCleanParent := sf.clean(vv, path[1:], fields)
 				removeParent = removeParent && toCleanParent
+			} else {
+				// null entries are values, not objects left empty by scrubbing
+				removeParent = false
 			}
 		}
 		if len(v) == 0 {
